@@ -16,7 +16,7 @@ const (
 
 func init() {
 	register("C22", "other", "T1 LockSet, T16c tombstone agreement, T2 Dominates (flush phases), T7 Pairing, alias/provenance (snapshot copy)",
-		"Decides the structure the overlay semantics depend on: the overlay tree, size estimate and underlying handle are only touched under the store lock (also by the iterator and the batch); every function that reads an overlay value treats nil as 'deleted' (Has/Get/flush/iterator/batch write and replay) while Put rejects nil and stores a private copy and Delete stores the nil tombstone; reads fall through to the underlying store only on the not-in-overlay edge; flush puts or deletes every overlay entry into a batch, writes full batches on the size threshold, clears the overlay and the size only after the complete loop and ends with the final batch write; dropping clears tree and size; the snapshot's tree is a fresh tree filled under the read lock with its own lock; the unflushed-key count is the tree size and both write paths key the tree by the same string conversion; the lazy variant installs the real store before flushing. The merged-iterator semantics (value-level) and history equivalence are not decided.",
+		"Decides the structure the overlay semantics depend on: the overlay tree, size estimate and underlying handle are only touched under the store lock (also by the iterator and the batch); every function that reads an overlay value treats nil as 'deleted' (Has/Get/flush/iterator/batch write and replay) while Put rejects nil and stores a private copy and Delete stores the nil tombstone; reads fall through to the underlying store only on the not-in-overlay edge; flush puts or deletes every overlay entry into a batch, writes full batches on the size threshold, clears the overlay and the size only after the complete loop and ends with the final batch write; dropping clears tree and size; the snapshot's tree is a fresh tree filled under the read lock with its own lock, and the underlying store's snapshot and the copy of the overlay are taken in one critical section of the store lock (in GetSnapshot or in the helper that builds the snapshot); statements of flush may live in helpers called on the same store (effect sites); the unflushed-key count is the tree size and both write paths key the tree by the same string conversion; the lazy variant installs the real store before flushing. The merged-iterator semantics (value-level) and history equivalence are not decided.",
 		[]string{"gods red-black tree contract (ordered by string comparator, Put replaces)", "underlying store is a correct ordered map (C23)"},
 		runC22)
 }
@@ -27,18 +27,15 @@ func runC22(c *core.Ctx) {
 
 	c.Clause("C22.lock", func() {
 		res := core.RunLockset(p, flushableLockSpec())
-		n := reportLockset(c, res, c28Exceptions, func(f *core.FuncInfo) bool {
-			// the pool is C25/C28's subject
-			return f.RecvTypeName() != poolT
-		})
+		// the pool is C25/C28's subject: its methods, and the plain helper functions that only the pool calls
+		pool := c22PoolFuncs(res)
+		n := reportLockset(c, res, c28Exceptions, func(f *core.FuncInfo) bool { return !pool[f] })
 		c.ExpectAtLeast("flushable (function,field) access groups", n, 28)
 	})
 
 	c.Clause("C22.tombstone", func() {
-		// every function reading an overlay value compares it with nil (exception: the snapshot copies entries verbatim)
-		exceptions := map[string]string{
-			flT + ".GetSnapshot": "copies every overlay entry, tombstones included, into the snapshot's tree",
-		}
+		// every function reading an overlay value compares it with nil (exception: a function that only
+		// copies the values verbatim into another tree, as the snapshot does: tombstones stay tombstones)
 		n := 0
 		for _, f := range p.FuncsInPkg("kvdb/flushable") {
 			var reads []ast.Expr
@@ -55,10 +52,6 @@ func runC22(c *core.Ctx) {
 				continue
 			}
 			n++
-			if why, ok := exceptions[f.Name]; ok {
-				c.Pass(short(f.Name), "T16c tombstone agreement (exception)", why)
-				continue
-			}
 			// variables holding read values
 			vals := map[*types.Var]bool{}
 			for _, a := range assignments(f) {
@@ -71,6 +64,10 @@ func runC22(c *core.Ctx) {
 						}
 					}
 				}
+			}
+			if c22VerbatimCopy(f, reads, vals) {
+				c.Pass(short(f.Name), "T16c tombstone agreement (exception)", "copies every overlay entry it reads, tombstones included, verbatim into another tree (Tree.Put value argument) and uses the values for nothing else")
+				continue
 			}
 			// a comparison of the read value with nil (branch condition or returned boolean), in this function
 			// or in a module function that receives the value as an argument
@@ -279,11 +276,17 @@ func runC22(c *core.Ctx) {
 		}
 		c.Check(okSplit, "tombstones become deletes, values become puts", "T4 GuardedBy", loop.Pos(), "batch.Delete only on the value == nil edge, batch.Put only on the value != nil edge", "flush does not map tombstones to Delete and values to Put"+whySplit)
 		// clearing only after the complete loop; final write after clearing
-		clr := f.CallsTo(rbtP + "Tree.Clear")
-		c.Need(len(clr) == 1, "flush clears the overlay once")
-		ok1, _ := mustPassBlockBefore(f, done, clr[0].Pt)
-		c.Check(ok1, "overlay cleared only after the complete loop", "T2 Dominates (loop exit)", clr[0].Pos(), "modified.Clear() is dominated by the loop's exit", "the overlay can be cleared before every entry reached the batch")
-		writes := f.CallsTo("kvdb.Batch.Write")
+		// (the clearing statements may live in a helper called on the same store, e.g. dropNotFlushed)
+		clr := c22Sites(f, c22ClearIn, 2, false)
+		c.Need(len(clr) >= 1, "flush clears the overlay (itself or through a helper of the same store)")
+		clrPos := posOf(clr[0])
+		ok1 := true
+		for _, pt := range clr {
+			if o, _ := mustPassBlockBefore(f, done, pt); !o {
+				ok1 = false
+			}
+		}
+		c.Check(ok1, "overlay cleared only after the complete loop", "T2 Dominates (loop exit)", clrPos, "modified.Clear() is dominated by the loop's exit", "the overlay can be cleared before every entry reached the batch")
 		// (a helper that always writes the batch counts as the write)
 		var final []core.Point
 		for _, pt := range f.SitesMust(func(cs *core.CallSite) bool { return cs.Name == "kvdb.Batch.Write" && !cs.InDefer }, 2) {
@@ -292,28 +295,38 @@ func runC22(c *core.Ctx) {
 			}
 		}
 		_, noWrite := core.PathQuery{F: f, From: blockEntry(done), Avoid: core.PointSet(final...), TargetExit: true}.Find()
-		c.Check(!noWrite && len(final) > 0, "final batch write", "T3 PostDominates", clr[0].Pos(), "every path from the end of the overlay loop to return passes the final batch.Write()", "flush can return success without writing the last batch")
-		var zero []core.Point
-		for _, as := range assignments(f) {
-			if st, ok := ast.Unparen(as.LHS).(*ast.StarExpr); ok && fieldNameOf(f, st.X) == flT+".sizeEstimation" && as.Tok == token.ASSIGN && core.IsConstInt(f.Info(), as.RHS, 0) {
-				zero = append(zero, as.Pt)
+		c.Check(!noWrite && len(final) > 0, "final batch write", "T3 PostDominates", clrPos, "every path from the end of the overlay loop to return passes the final batch.Write()", "flush can return success without writing the last batch")
+		// every point that (may) clear the overlay is paired with a point that certainly zeroes the size
+		zero := c22Sites(f, c22ZeroIn, 2, true)
+		ok3 := true
+		for _, pt := range clr {
+			if o, _ := pairedWith(f, pt, zero); !o {
+				ok3 = false
 			}
 		}
-		ok3, _ := pairedWith(f, clr[0].Pt, zero)
-		c.Check(ok3, "size estimate reset with the overlay", "T7 Pairing", clr[0].Pos(), "*sizeEstimation = 0 is paired with modified.Clear()", "the size estimate is not reset when the overlay is cleared")
-		// in-loop threshold: Write then Reset
-		for _, w := range writes {
-			if enclosingLoop(f, w.Pos()) != nil {
-				rs := f.CallsTo("kvdb.Batch.Reset")
-				var inLoop []*core.CallSite
-				for _, r := range rs {
-					if enclosingLoop(f, r.Pos()) != nil && !r.InDefer {
-						inLoop = append(inLoop, r)
-					}
+		c.Check(ok3, "size estimate reset with the overlay", "T7 Pairing", clrPos, "*sizeEstimation = 0 is paired with modified.Clear()", "the size estimate is not reset when the overlay is cleared")
+		// threshold write: the batch is reset (outside defer) only after it was written successfully, in
+		// flush or in a helper flush calls; a reset before that loses the staged entries
+		isWrite := func(cs *core.CallSite) bool { return cs.Name == "kvdb.Batch.Write" }
+		okReset, nReset := true, 0
+		resetPos := loop.Pos()
+		for _, g := range c22Hosts(f, 2) {
+			var certs []*core.CallSite
+			for _, r := range g.CallsTo("kvdb.Batch.Reset") {
+				if r.InDefer {
+					continue
 				}
-				ok := len(inLoop) == 1 && afterSuccess(f, w, inLoop[0].Pt)
-				c.Check(ok, "full batch is written, then reset", "T2+T4", w.Pos(), "batch.Reset() follows a successful batch.Write() inside the loop", "the batch is reset without having been written")
+				if certs == nil {
+					certs = c22Certifies(g, isWrite, 1)
+				}
+				nReset++
+				if !c22AfterCertified(g, certs, r.Pt) {
+					okReset, resetPos = false, r.Pos()
+				}
 			}
+		}
+		if nReset > 0 {
+			c.Check(okReset, "full batch is written, then reset", "T2+T4", resetPos, "batch.Reset() follows a successful batch.Write()", "the batch is reset without having been written")
 		}
 	})
 
@@ -336,16 +349,21 @@ func runC22(c *core.Ctx) {
 	})
 
 	c.Clause("C22.snapshot", func() {
-		f := c.Fn(flT + ".GetSnapshot")
+		entry := c.Fn(flT + ".GetSnapshot")
+		// the function that builds the snapshot's reader: GetSnapshot itself, or a helper it calls
+		var f *core.FuncInfo
 		var cl *ast.CompositeLit
-		f.InspectOwn(func(n ast.Node) bool {
-			if x, ok := n.(*ast.CompositeLit); ok {
-				if t := f.Info().TypeOf(x); t != nil && t.String() == core.ModPath+"/kvdb/flushable.flushableReader" {
-					cl = x
+		for _, g := range c22Hosts(entry, 2) {
+			g := g
+			g.InspectOwn(func(n ast.Node) bool {
+				if x, ok := n.(*ast.CompositeLit); ok && cl == nil {
+					if t := g.Info().TypeOf(x); t != nil && t.String() == core.ModPath+"/kvdb/flushable.flushableReader" {
+						cl, f = x, g
+					}
 				}
-			}
-			return true
-		})
+				return true
+			})
+		}
 		c.Need(cl != nil, "snapshot builds its own flushableReader")
 		var modV, underV ast.Expr
 		for _, el := range cl.Elts {
@@ -384,6 +402,13 @@ func runC22(c *core.Ctx) {
 			}
 		}
 		c.Check(okU, "snapshot reads a snapshot of the underlying store", "provenance", f.Pos(), "underlying: parent.GetSnapshot()", "the snapshot reads the live underlying store")
+		// the parent snapshot and the copy of the overlay are taken in one critical section of the store
+		// lock: a flush (or drop, or write) between the two would pair the old underlying state with the
+		// new overlay
+		okAtomic, whyAtomic, posAtomic := c22SnapshotAtomic(entry)
+		c.Check(okAtomic, "parent snapshot and overlay copy are taken atomically", "T1 LockSet (single critical section)", posAtomic,
+			"the underlying GetSnapshot() call and every read of the overlay tree happen under the store lock, which is not released in between",
+			"the snapshot is not a view of one moment: "+whyAtomic+"; a Flush between the two yields the old underlying state with an emptied overlay (unflushed writes are lost, deleted keys reappear)")
 	})
 
 	c.Clause("C22.lazy", func() {
